@@ -15,6 +15,7 @@ anyio.get_cancelled_exc_class = lambda: asyncio.CancelledError
 class _World:
     outer_cancelled = False
     shield_depth = 0
+    unbounded_shields = 0
 
 
 W = _World()
@@ -25,15 +26,21 @@ class FakeShield:
 
     def __init__(self, *a, shield=False, deadline=None, **k):
         self.shield = shield
+        # a shield that carries a finite deadline delays a cancellation only for a bounded time
+        self.unbounded = shield and (deadline is None or deadline == float("inf"))
 
     def __enter__(self):
         if self.shield:
             W.shield_depth += 1
+        if self.unbounded:
+            W.unbounded_shields += 1
         return self
 
     def __exit__(self, *a):
         if self.shield:
             W.shield_depth -= 1
+        if self.unbounded:
+            W.unbounded_shields -= 1
         return False
 
     def cancel(self):
@@ -263,3 +270,91 @@ def wrapper(which, body, exit_on_term, exit_on_kill, tg_mode, outer_cancel):
     if body == 0 and not W.outer_cancelled and raised is not None and not (tg_mode in (2, 4) and isinstance(raised, BaseException)):
         return "normal-exit-raised:" + type(raised).__name__
     return "ok"
+
+
+# ------------------------------------------------------------------ a task blocked on a pipe must stay cancellable
+from harness import sizes as _sizes  # noqa: E402
+
+_sizes.size_cases(70000, extra=_sizes.ENV_SIZES)
+_sizes.size_cases(140000, extra=_sizes.ENV_SIZES)
+
+
+class _Block:
+    """an await that never completes by itself (a full pipe / a silent child)"""
+
+    def __await__(self):
+        yield self
+
+
+class _BlockingStdin:
+    def __init__(self):
+        self.chunks, self.closed = [], 0
+
+    async def send(self, data):
+        await _Block()
+        self.chunks.append(data)
+
+    async def aclose(self):
+        self.closed += 1
+
+
+class _BlockingStdout:
+    def __aiter__(self):
+        return self
+
+    async def __anext__(self):
+        await _Block()
+        raise StopAsyncIteration
+
+    async def receive(self, n=65536):
+        await _Block()
+        return b""
+
+
+def _cancel_while_blocked(coro, who):
+    """the task group is cancelled while the task waits for the pipe: the cancellation must reach it (it is not
+    inside a shielded scope) and it must end"""
+    W.outer_cancelled, W.shield_depth, W.unbounded_shields = False, 0, 0
+    try:
+        p = coro.send(None)
+    except StopIteration:
+        return who + "-ended-without-touching-the-pipe"
+    if not isinstance(p, _Block):
+        coro.close()
+        raise HarnessError("task parked on something else than the pipe")
+    if W.unbounded_shields > 0:
+        coro.close()
+        return who + "-blocked-on-the-pipe-inside-a-shielded-scope"
+    try:
+        coro.throw(asyncio.CancelledError())
+    except (asyncio.CancelledError, StopIteration):
+        return "ok"
+    except HarnessError:
+        raise
+    except BaseException as e:  # noqa
+        return who + "-raised-on-cancellation:" + type(e).__name__
+    coro.close()
+    return who + "-keeps-waiting-after-cancellation"
+
+
+def blocked_writer(kind, k, pat, lim=70000):
+    """the child does not read and the pipe is full: the writer waits in stdin.send() with a message of c-1, c, c+1
+    characters (c: integer constants of the source and environment sizes such as PIPE_BUF)"""
+    from harness.h_C06 import item, _Outgoing
+
+    n = _sizes.pick(_sizes.size_cases(lim, extra=_sizes.ENV_SIZES), k)
+    obj, exp = item(kind, 0, _sizes.long_text(n, pat))
+    if exp is None:
+        raise HarnessError("kind must be serialisable")
+    ENV.reset([])
+    c = make_client()
+    c.process.stdin = _BlockingStdin()
+    c._outgoing_recv = _Outgoing([obj])
+    return _cancel_while_blocked(c._stdin_writer(), "writer")
+
+
+def blocked_reader(x):
+    ENV.reset([])
+    c = make_client()
+    c.process.stdout = _BlockingStdout()
+    return _cancel_while_blocked(c._stdout_reader(), "reader")
